@@ -281,6 +281,19 @@ theorem update_eq_upd {bnd : Int} (l : List (Entry V)) (a b : Int) (v : Option V
         simp only [keepFrom, skipFrom, if_neg (show ¬ b + 1 ≤ e.date by omega)]
         simp [reopen, lastDate]
 
+/-! ## Sequences of updates -/
+
+theorem foldl_specStep_untouched (d : Int) (acc : Option V) (us : List (Upd V))
+    (h : ∀ u ∈ us, ¬ u.covers d) : us.foldl (specStep d) acc = acc := by
+  induction us generalizing acc with
+  | nil => rfl
+  | cons u us ih =>
+    rw [List.foldl_cons]
+    have : specStep d acc u = acc := by
+      unfold specStep; rw [if_neg (h u (List.mem_cons_self ..))]
+    rw [this]
+    exact ih acc (fun u' hu' => h u' (List.mem_cons_of_mem _ hu'))
+
 /-! ## Construction from data -/
 
 theorem mem_insertDesc (x y : Int × Item V) (l : List (Int × Item V)) :
